@@ -81,7 +81,8 @@ def gen_case(rng, tier):
         files = split_files(rng, stmts, rng.choice([2, 2, 3, 4]))
         case = {'kind': 'split', 'cfg': cfg, 'files': files, 'unsplit': stmts if neutral(stmts) else None}
     else:
-        kind = rng.choice(['twice-direct', 'diamond', 'nested-twice', 'missing', 'two-dirs', 'same-dir-twice', 'symlink-dir'])
+        kind = rng.choice(['twice-direct', 'diamond', 'nested-twice', 'missing', 'two-dirs', 'same-dir-twice', 'symlink-dir',
+                           'unselected-include', 'unselected-missing', 'unselected-then-selected', 'selected-include'])
         d = lambda v: {'k': 'data', 'w': 1, 'vals': [('num', v)]}  # noqa
         inc = lambda i: {'k': 'include', 'f': i, 'name': f'inc{i}.asm'}  # noqa
         cfg = {'bits': 16, 'little': False, 'regs': ['ra', 'rb'], 'preZones': [], 'preConsts': [], 'preData': []}
@@ -93,6 +94,15 @@ def gen_case(rng, tier):
             files = [[inc(1), d(1)], [inc(2), d(2)], [d(3), inc(1)]]
         elif kind == 'missing':
             files = [[d(1), {'k': 'include', 'f': 7, 'name': 'nothere.asm'}]]
+        elif kind == 'unselected-include':
+            # an #include in an unselected branch has no effect (the file is neither read nor marked as used)
+            files = [[d(1), P.COND_IF(0), inc(1), d(5), {'k': 'cond', 'd': 'endif'}, d(2)], [d(9), {'k': 'label', 'name': 'in_inc'}]]
+        elif kind == 'unselected-missing':
+            files = [[d(1), P.COND_IF(0), {'k': 'include', 'f': 7, 'name': 'nothere.asm'}, {'k': 'cond', 'd': 'endif'}, d(2)]]
+        elif kind == 'unselected-then-selected':
+            files = [[P.COND_IF(0), inc(1), {'k': 'cond', 'd': 'else'}, d(3), {'k': 'cond', 'd': 'endif'}, inc(1), d(2)], [d(9)]]
+        elif kind == 'selected-include':
+            files = [[d(1), P.COND_IF(1), inc(1), {'k': 'cond', 'd': 'endif'}, d(2)], [d(9)]]
         else:
             files = [[d(1), inc(1), d(2)], [d(9)]]
         case = {'kind': kind, 'cfg': cfg, 'files': files, 'unsplit': None}
